@@ -277,7 +277,7 @@ def check_fit(ctx, c):
             continue  # documented: with a fixed sill var/nugget are recomputed from each other
         got = float(getattr(model, p))
         tol = 1e-13 * max(1.0, abs(want)) if (name in common.TPL and p == "var") else 0.0
-        if abs(got - want) > tol:
+        if not abs(got - want) <= tol:
             ctx.fail(dict(mech, what=f"{state[p]}-parameter-altered", par=p if p in ("var", "len_scale", "nugget") else "opt"),
                      f"{p}: {got!r} after the fit, {state[p]} value {want!r} (fit kwargs {sorted(fkw)})")
             return
@@ -300,7 +300,7 @@ def check_fit(ctx, c):
     # (4) prescribed sill
     if sill_constrained:
         s = float(model.var + model.nugget)
-        if abs(s - sill_v) > 1e-12 * sill_v:
+        if not abs(s - sill_v) <= 1e-12 * sill_v:
             ctx.fail(dict(mech, what="sill-not-met"), f"var + nugget - sill = {s - sill_v:.3e} (sill {sill_v}, mode {sill_mode}, states {state})")
             return
     # (5) recovers the generating curve
@@ -368,7 +368,7 @@ def check_fit(ctx, c):
         return
     for p in fit_pars:
         got, want = float(getattr(model, p)), base[p]
-        if abs(got - want) > 2e-3 * max(abs(want), 1e-2) * max(1.0, condJ / 1e3):
+        if not abs(got - want) <= 2e-3 * max(abs(want), 1e-2) * max(1.0, condJ / 1e3):
             ctx.fail(dict(mech, what="parameter-not-recovered", par=p if p in ("var", "len_scale", "nugget") else "opt"),
                      f"{p}: fitted {got!r}, true {want!r} (r2 {r2!r}, cond(J) {condJ:.2e}); states {state}")
             return
